@@ -44,6 +44,12 @@ theorem public_key_relation (d : Nat) (hd : d ≤ 10) (h f g : List Nat)
   rw [hrel, C11.intt_ntt d hd g hlg hcg] at h1
   exact (Res.ok.inj h1).symm
 
+/-- the acceptance bound on the Gram-Schmidt norm is the specification's (1.17²·q: the literal 1.3689), the
+    invertibility guard tests every NTT coefficient of f, and the range guards are the reference's -/
+theorem keygen_guard_constants :
+    Gen.gammaBoundBits = 4608843796702554384 ∧ Gen.invertibilityGuardAll = true ∧
+    Gen.fgGuardGe = true ∧ Gen.capGuardGe = false ∧ Gen.capGuardLimit = 127 := ⟨rfl, rfl, rfl, rfl, rfl⟩
+
 /-- what the executable check on each generated key asserts, stated as a proposition -/
 theorem keyCheck_ok_means (n : Nat) (f g cF cG : List Int) (h : List Nat) (hk : KeygenSkel.keyCheck n f g cF cG h = "ok") :
     RingZ.ntruLhs n f g cF cG = (12289 : Int) :: List.replicate (n - 1) 0 := by
